@@ -118,6 +118,10 @@ def corr_match(ctx):
         other_line = all(x[0] != p[0] for x in rq["locs"])
         if exact and not im["generic"]:
             ctx.fail({"kind": "match-location", "shape": "exact-not-selected"}, f"Result.match_location misses a finding located exactly at the node: pos {p} loc {l}", {"request": rq, "impl": im})
+        # a node is selected only if some finding points at it: same lines, start / end columns equal or one less (tool columns 1-based)
+        points_at = any(x[0] == p[0] and x[2] == p[2] and p[1] in (x[1] - 1, x[1]) and p[3] in (x[3] - 1, x[3]) for x in rq["locs"])
+        if im["generic"] and not points_at:
+            ctx.fail({"kind": "match-location", "shape": "selected-without-pointing-finding"}, f"Result.match_location selects a node no finding points at: pos {p} locs {rq['locs']}", {"request": rq, "impl": im})
         if other_line and im["generic"]:
             ctx.fail({"kind": "match-location", "shape": "other-line-selected"}, f"Result.match_location selects a node for a finding on another line: pos {p} locs {rq['locs']}", {"request": rq, "impl": im})
     ctx.exhaustive_parts.append(f"match_location grid: {len(reqs)} (position, locations) pairs")
@@ -265,7 +269,7 @@ def c06_case(case):
                         placed.append((kind, pe))
                         ids.setdefault(i, []).append(str(ident))
                     elif tool == "sonar" and case["decoys"]:
-                        pe["status"] = "RESOLVED"       # closed issue on an unreported site
+                        pe["status"] = rng.choice(["RESOLVED", "CLOSED", "REVIEWED"])   # closed issue / reviewed hotspot on an unreported site
                         placed.append((kind, pe))
             if case["decoys"]:
                 # foreign rule on every site of code.py; the same findings are NOT reported for other.py
